@@ -31,7 +31,7 @@ def main():
     R.assumptions = [
         "kryptology's FROST participant is modelled (Feldman split = a polynomial of degree < t per node and validator; Round2 = own share + received shares over the ids in the broadcast map), not verified; its zero-knowledge and Feldman checks are not part of the model",
         "transport contract: every node receives exactly the messages addressed to it, each once, in an arbitrary order (frostp2p.go source/target/validator-index validation and dedup; reliable broadcast is property C13); all n nodes are honest",
-        "pairing-group hypotheses and admissible ids 1..n as in C08; primality of the BLS12-381 scalar order r is the hypothesis under which the Coq decision 'on one polynomial of degree < t' (vsr_checkZ) is sound (C08_vsr_checkZ_sound)",
+        "pairing-group hypotheses and admissible ids 1..n as in C08; the Coq decision 'on one polynomial of degree < t' (vsr_checkZ at the BLS12-381 scalar order r) is sound by C08_vsr_checkZ_sound_r (r proved prime in Tbls/PrimeR.v)",
         "the ceremony draws its randomness inside kryptology (crypto/rand): the check is relational on the produced outputs, a replay re-runs the configuration with the same order seed",
     ]
     R.proofs(extra_targets=["Tbls/ShamirCorr.v"])
